@@ -1,3 +1,255 @@
-/- C10 — property theorems (stub: the property is not claimed yet). -/
+/-
+  C10 — The style attribute and the style object are one state seen three ways.
+
+  Property theorems only.  Model: AHP/Model/Attrs.lean (executed by the native driver); lemmas:
+  AHP/Lemmas/AttrsStyle.lean (parse ∘ render), AttrsStyleInv.lean (writers, invariants), Attrs*.lean.
+
+  The one state is `e.sty`, the ordered name → value map of the element's style object.  C10a: every read path
+  (`style.<camelCase>`, `getStyle`, `str(style)`, `getAttribute('style')`, the mapping, `items()`,
+  `getAttributesList()`, the rendered start tag read back) is a projection of it; camelCase and dash names address
+  one key.  C10b: an empty value removes; the attribute is present / rendered iff the map is non-empty — in every
+  reachable state and through every presence test.  C10c: `styleToDict ∘ asStr = id` on the maps the element can
+  hold, hence re-parse and copies reproduce the map; a style string parses to what its rendering parses to.
+  C10d: equality ignores order.  C10e: assigning another element's style copies the map.
+-/
+import AHP.Lemmas.AttrsFrame
 namespace AHP.C10
+open AHP AHP.Attrs
+
+def Reach (T : Tables) (e : El) : Prop :=
+  ∃ tag sc attrs ops, e = run T (mk T tag sc attrs) ops
+
+/-- `style` is not in `TAG_ITEM_BINARY_ATTRIBUTES` (checked on constants.py by the harness on every run) -/
+def StylePlain (T : Tables) : Prop := T.binary.contains styleK = false
+
+theorem reach_inv {T : Tables} {e : El} (h : Reach T e) : DictInv e := by
+  obtain ⟨tag, sc, attrs, ops, rfl⟩ := h
+  exact dictInv_run T ops (dictInv_mk T tag sc attrs)
+
+/-! ### C10a — one ordered map, seen through every read path -/
+
+/-- `str(element.style)` -/
+theorem view_str (e : El) : styleStr e = asStr e.sty := rfl
+
+/-- `element.style.<name>`: the value under `camelCaseToDashName(name)`, `''` when unset -/
+theorem view_dot (n : Str) (e : El) : styleDotGet n e = (aget (camelToDash n) e.sty).getD [] := styleDotGet_eq n e
+
+/-- `getStyle(name)`: the value under `name.lower()` -/
+theorem view_getStyle (n : Str) (e : El) : getStyle n e = (aget (lower n) e.sty).getD [] := getStyle_eq n e
+
+/-- camelCase and dash names address the same property: writing `style.<camel>` (or `setStyle(camel, …)`) is
+    writing `setProperty(dash, …)`, and what `style.<camel>` reads is what `getStyle(dash)` reads -/
+theorem camel_dash_one_key (n : Str) (v : Option Str) (e : El) :
+    styleDotSet n v e = setProperty (camelToDash n) v e ∧ setStyle n v e = setProperty (camelToDash n) v e ∧
+    styleDotGet n e = getStyle (camelToDash n) e := by
+  refine ⟨rfl, rfl, ?_⟩
+  rw [view_dot, view_getStyle, lower_of_noUpper (camelToDash_noUpper n)]
+
+example : camelToDash ['p', 'a', 'd', 'd', 'i', 'n', 'g', 'T', 'o', 'p'] = ['p', 'a', 'd', 'd', 'i', 'n', 'g', '-', 't', 'o', 'p'] := by
+  decide
+
+/-- names written in a style string are lower-cased (and trimmed, and pairwise distinct) -/
+theorem string_names_lowercase (s : Str) : ∀ k ∈ akeys (styleToDict s), lower k = k ∧ strip k = k := by
+  intro k hk
+  obtain ⟨p, hp, rfl⟩ := List.mem_map.mp hk
+  have := (styRT_styleToDict s).2 p hp
+  exact ⟨this.nameLower, this.nameTrim⟩
+
+/-- `attributes['style']`, `attributes.get('style')`, `getAttribute('style')` (any spelling): the style object itself -/
+theorem view_getitem (T : Tables) {k : Str} (hk : lower k = styleK) (e : El) : getitem T k e = .style (asStr e.sty) := by
+  unfold getitem
+  simp only [hk, if_true]
+
+theorem view_mapGet (T : Tables) {k : Str} (hk : lower k = styleK) (d : PyVal) (e : El) :
+    mapGet T k d e = (.style (asStr e.sty), e) := by
+  unfold mapGet
+  simp only [hk]
+  simp [view_getitem T lower_styleK, styleK_ne_classK]
+
+theorem view_getAttribute (T : Tables) {k : Str} (hk : lower k = styleK) (hb : T.binary.contains k = false)
+    (d : PyVal) (e : El) : getAttribute T k d e = (.style (asStr e.sty), e) := by
+  unfold getAttribute
+  rw [hb]
+  exact view_mapGet T hk d e
+
+/-- `attributes.items()` -/
+theorem view_items (e : El) :
+    aget styleK (items e).1 = if e.sty.isEmpty then none else some (.style (asStr e.sty)) := by
+  rw [aget_items, aget_style_sync]
+  split <;> rfl
+
+/-- `getAttributesList()` / `getAttributesDict()` -/
+theorem view_attrsList (e : El) :
+    aget styleK (viewList e) = if e.sty.isEmpty then none else some (some (asStr e.sty)) := viewList_style e
+
+/-- the rendered start tag, read back: `style="…"` carries `escapeQuotes(str(style))` -/
+theorem view_startTag (T : Tables) (e : El) :
+    aget styleK (readBack (startTagItems T e).1)
+      = if e.sty.isEmpty then none else some (some (unescQ (escQ (asStr e.sty)))) := by
+  rw [aget_readBack, view_items]
+  split
+  · rfl
+  · next hne =>
+    have h1 : asStr e.sty ≠ [] := asStr_ne_nil (by simpa using hne)
+    simp [Option.bind, readBackVal, renderItem, PyVal.falsy, PyVal.tostrOpt, h1]
+
+/-! ### C10b — empty value removes; rendered / present iff a property remains -/
+
+/-- writing an empty value (`''` or `None`) through any of the three property writers removes the property … -/
+theorem write_empty_removes (n : Str) {v : Option Str} (hv : emptyVal v = true) (e : El) :
+    aget (camelToDash n) (styleDotSet n v e).sty = none ∧ aget (camelToDash n) (setStyle n v e).sty = none ∧
+    aget n (setProperty n v e).sty = none := by
+  refine ⟨?_, ?_, ?_⟩
+  · rw [styleDotSet_sty, hv]; exact aget_adel_same _ _
+  · show aget (camelToDash n) (styleDotSet n v e).sty = none
+    rw [styleDotSet_sty, hv]; exact aget_adel_same _ _
+  · rw [setProperty_sty, hv]; exact aget_adel_same _ _
+
+/-- … a non-empty value is what is read back under that property, and no writer touches any other property -/
+theorem write_sets (n : Str) {s : Str} (hs : s ≠ []) (e : El) :
+    aget (camelToDash n) (styleDotSet n (some s) e).sty = some s ∧ aget n (setProperty n (some s) e).sty = some s := by
+  have hv : emptyVal (some s) = false := by simpa [emptyVal] using hs
+  refine ⟨?_, ?_⟩
+  · rw [styleDotSet_sty, hv]; exact aget_aset_same _ _ _
+  · rw [setProperty_sty, hv]; exact aget_aset_same _ _ _
+
+theorem write_frame (n : Str) (v : Option Str) (e : El) {k : Str} (hk : k ≠ n) :
+    aget k (setProperty n v e).sty = aget k e.sty := by
+  rw [setProperty_sty]
+  split
+  · exact aget_adel_ne hk _
+  · exact aget_aset_ne hk _ _
+
+/-- in every reachable state the `style` key of the dict is present iff the map is non-empty: `in` … -/
+theorem presence_contains {T : Tables} {e : El} (h : Reach T e) {k : Str} (hk : lower k = styleK) :
+    contains k e = !e.sty.isEmpty := by
+  unfold contains
+  simp only [hk]
+  rw [if_neg styleK_ne_classK]
+  exact (reach_inv h).style
+
+/-- … `hasAttribute('style')`, any spelling … -/
+theorem presence_hasAttribute {T : Tables} {e : El} (h : Reach T e) {k : Str} (hk : lower k = styleK) :
+    hasAttribute k e = !e.sty.isEmpty := by
+  unfold hasAttribute
+  exact presence_contains h (by rw [lower_idem, hk])
+
+/-- … `keys()`, the DOM node map, the rendered start tag -/
+theorem presence_keys (e : El) : styleK ∈ (keys e).1 ↔ e.sty ≠ [] := by
+  rw [keys_fst, ← ahas_iff_mem]
+  unfold ahas
+  rw [aget_style_sync]
+  cases h : e.sty with
+  | nil => simp
+  | cons a r => simp
+
+theorem presence_startTag (T : Tables) (e : El) : styleK ∈ akeys (readBack (startTagItems T e).1) ↔ e.sty ≠ [] := by
+  rw [akeys_readBack]
+  exact presence_keys e
+
+theorem presence_domItem (T : Tables) {e : El} (h : Reach T e) :
+    domItem T styleK e = if e.sty.isEmpty then none else some (styleK, .style (asStr e.sty)) := by
+  unfold domItem
+  simp only [lower_styleK, presence_contains h lower_styleK, view_getitem T lower_styleK]
+  cases e.sty.isEmpty <;> rfl
+
+/-! ### C10c — parse ∘ render -/
+
+/-- `styleToDict (asStr m) = m` on maps with distinct, trimmed, lower-case, `:`/`;`-free names and trimmed `;`-free values -/
+theorem parse_render {m : AL Str} (h : StyRT m) : styleToDict (asStr m) = m := styleToDict_asStr h
+
+/-- every style string parses to such a map … -/
+theorem parse_is_roundtrippable (s : Str) : StyRT (styleToDict s) := styRT_styleToDict s
+
+/-- … so a style string parses to the same mapping that its rendering parses to -/
+theorem parse_render_parse (s : Str) : styleToDict (asStr (styleToDict s)) = styleToDict s := styleToDict_render_idem s
+
+/-- in every state reached by the writers of the property (names and values of its domain: trimmed, `;`-free;
+    whole-style strings arbitrary) the element's map is round-trippable -/
+theorem reach_roundtrippable (T : Tables) (tag : Str) (sc : Bool) (attrs : List (Str × Option Str)) (ops : List Op)
+    (ho : ∀ op ∈ ops, GoodStyOp op) : StyRT (run T (mk T tag sc attrs) ops).sty :=
+  styInv_run T ops ho (styInv_mk T tag sc attrs)
+
+/-- re-parsing the rendered start tag yields the same map (the rendered value must be free of `&`) -/
+theorem view_reparse (T : Tables) {e : El} (hr : Reach T e) (h : StyRT e.sty) (hamp : '&' ∉ asStr e.sty) :
+    (reparse T e).1.sty = e.sty := by
+  unfold reparse
+  simp only
+  rw [mk_sty T _ _ _ (goodKeys_of_sync (reach_inv hr) (akeys_readBack T e)), view_startTag, unescQ_escQ hamp]
+  cases hs : e.sty with
+  | nil => rfl
+  | cons a r =>
+    simp only [List.isEmpty_cons, Bool.false_eq_true, if_false, Option.getD_some]
+    rw [← hs, parse_render h, parse_render h]
+
+/-- cloneNode, copy, unpickling, `eval(repr(tag))` reproduce the map -/
+theorem view_clone (T : Tables) {e : El} (hr : Reach T e) (h : StyRT e.sty) : (clone T e).1.sty = e.sty := by
+  unfold clone
+  simp only
+  have := view_attrsList e
+  unfold viewList at this
+  rw [mk_sty T _ _ _ (goodKeys_of_sync (reach_inv hr) (akeys_attrsList e)), this]
+  cases hs : e.sty with
+  | nil => rfl
+  | cons a r =>
+    simp only [List.isEmpty_cons, Bool.false_eq_true, if_false, Option.getD_some]
+    rw [← hs, parse_render h, parse_render h]
+
+/-- the seven whole-style strings of the property: what they parse to -/
+example : styleToDict [] = [] := by decide
+example : styleToDict "display: block".toList = [("display".toList, "block".toList)] := by decide
+example : styleToDict "color:red;float:left".toList = [("color".toList, "red".toList), ("float".toList, "left".toList)] := by decide
+example : styleToDict " padding-top : 5px ; ".toList = [("padding-top".toList, "5px".toList)] := by decide
+example : styleToDict "a:b;a:c".toList = [("a".toList, "c".toList)] := by decide
+example : styleToDict "Color: RED".toList = [("color".toList, "RED".toList)] := by decide
+example : styleToDict "display: none;;".toList = [("display".toList, "none".toList)] := by decide
+
+/-! ### C10d — equality ignores order -/
+
+/-- `==` on two style objects is extensional equality of the two maps … -/
+theorem eq_iff_same_mapping (a b : AL Str) : styleEq a b = true ↔ ∀ k, aget k a = aget k b := styleEq_iff_ext a b
+
+/-- … hence blind to the order of the properties -/
+theorem eq_ignores_order {a b : AL Str} (hp : a.Perm b) (hn : (akeys a).Nodup) : styleEq a b = true :=
+  styleEq_of_perm hp hn
+
+/-! ### C10e — assigning another element's style copies it -/
+
+/-- `b.style = a.style` gives `b` a map equal to `a`'s (a copy through `str()` and `styleToDict`), attached to `b` … -/
+theorem assign_copies {m : AL Str} (h : StyRT m) (b : El) :
+    (assignStyleFrom m b).sty = m ∧ (ahas styleK (assignStyleFrom m b).dict = !m.isEmpty) := by
+  have h1 : (assignStyleFrom m b).sty = m := by rw [assignStyleFrom_sty, parse_render h]
+  refine ⟨h1, ?_⟩
+  unfold assignStyleFrom assignStyle
+  have h2 : styleToDict ((some (asStr m)).getD []) = m := parse_render h
+  rw [h2]
+  unfold ensureStyle
+  split
+  · next he => simp only at he; rw [ahas_adel_same, he]; rfl
+  · next he => simp only at he; rw [ahas_aset_same]; simp at he; simp [he]
+
+/-- … and the two elements stay separate values: an operation on one is not an operation on the other (the model
+    copies by value as the code copies through a string; aliasing of Python objects is exercised by the oracle) -/
+theorem assign_no_alias (T : Tables) (a b : El) (op : Op) :
+    let b' := assignStyleFrom a.sty b
+    ((step T a op).2, b') = ((step T a op).2, assignStyleFrom a.sty b) ∧ (a, (step T b' op).2).1 = a := ⟨rfl, rfl⟩
+
+/-- interleavings: every operation that does not address the style attribute (other attributes, class writers,
+    readers) leaves the style map exactly as it was -/
+theorem other_operations_keep_style (T : Tables) (op : Op) (h : KeepsStyle T op) (e : El) : (step T e op).2.sty = e.sty :=
+  step_sty_frame T op h e
+
+/-! ### non-vacuity -/
+
+def T0 : Tables := { binary := [], binStr := [], links := [] }
+
+example : StylePlain T0 := rfl
+
+/-- `style.paddingTop = '5px'`, `setStyle('display', 'block')`, `style.setProperty('padding-top', '')` -/
+example : (run T0 (mk T0 ['d', 'i', 'v'] false [])
+      [.styDot "paddingTop".toList (some "5px".toList), .setStyle "display".toList (some "block".toList),
+       .styProp "padding-top".toList (some [])]).sty = [("display".toList, "block".toList)] := by decide
+
+example : GoodStyName "padding-top".toList := ⟨by decide, by decide, by decide, by decide⟩
+
 end AHP.C10
